@@ -836,6 +836,12 @@ impl World {
     pub fn height(&self) -> u64 {
         self.app.block_info().height
     }
+    pub fn advance_ns(&mut self, blocks: u64, secs: u64, nanos: u64) {
+        self.app.update_block(|b| {
+            b.height += blocks;
+            b.time = b.time.plus_seconds(secs).plus_nanos(nanos);
+        });
+    }
     pub fn advance(&mut self, blocks: u64, secs: u64) {
         self.app.update_block(|b| {
             b.height += blocks;
